@@ -312,7 +312,7 @@ class DelayAdjustedMSTDP(IndependentCellTrainer):
             )
 
             # process update
-            if isinstance(signal, torch.Tensor):
+            if isinstance(signal, torch.Tensor) and signal.ndim > 0:
                 # signal subterms
                 scaledsignal = (
                     (signal * scale).abs().view(-1, *repeat(1, dpost.ndim - 1))
@@ -668,7 +668,7 @@ class DelayAdjustedMSTDPD(IndependentCellTrainer):
             )
 
             # process update
-            if isinstance(signal, torch.Tensor):
+            if isinstance(signal, torch.Tensor) and signal.ndim > 0:
                 # signal subterms
                 scaledsignal = (
                     (signal * scale).abs().view(-1, *repeat(1, dpost.ndim - 1))
